@@ -142,7 +142,7 @@ func isByteArray(t types.Type) bool {
 // isOpaqueIface: an interface that has no Lean counterpart (handlers, loggers): such parameters are
 // left out of the signature and may only occur inside oracle calls
 func (tr *translator) isOpaqueIface(t types.Type) bool {
-	if t == nil || isErrorType(t) {
+	if t == nil || isErrorType(t) || isLedgerItemParam(t) {
 		return false
 	}
 	if _, ok := t.Underlying().(*types.Interface); !ok {
